@@ -1,4 +1,4 @@
-use crate::{constraints::props::{Propagate, Prune}, variables::{VarId, Val}, variables::views::{Context, View}};
+use crate::{constraints::props::{Propagate, Prune}, variables::VarId, variables::views::{Context, View}};
 
 /// Global minimum constraint: `result = min(vars...)`.
 /// This constraint enforces that the result variable equals the minimum value among all input variables.
@@ -88,61 +88,11 @@ impl Prune for Min {
             }
         }
 
-        // Step 6: Additional propagation - if only one variable can achieve the current minimum,
-        // we might be able to tighten bounds further
-        let current_min = result_min_updated;
-        let mut vars_that_can_be_min = Vec::new();
-
-        for &var in &self.vars {
-            let var_min = var.min(ctx);
-            let var_max = var.max(ctx);
-            
-            if var_min <= current_min && current_min <= var_max {
-                vars_that_can_be_min.push(var);
-            }
-        }
-
-        // If all variables except those that can be minimum have a minimum > current_min,
-        // we can potentially tighten the result's upper bound
-        let mut next_minimum = None;
-        for &var in &self.vars {
-            let var_min = var.min(ctx);
-            
-            if var_min > current_min {
-                next_minimum = Some(match next_minimum {
-                    None => var_min,
-                    Some(current) => if var_min < current { var_min } else { current },
-                });
-            }
-        }
-
-        // If we have variables that can't be the minimum, use their minimums to bound result
-        if let Some(next_min) = next_minimum {
-            if vars_that_can_be_min.len() == 1 {
-                // Only one variable can achieve the minimum
-                let only_min_var = vars_that_can_be_min[0];
-                let var_max = only_min_var.max(ctx);
-                
-                // The result can't be larger than this variable's maximum
-                // (since it's the only one that can be minimum)
-                let new_result_max = if var_max < next_min { var_max } else { 
-                    // Take the minimum of var_max and (next_min - 1) if applicable
-                    match (var_max, next_min) {
-                        (Val::ValI(max_i), Val::ValI(next_i)) => {
-                            Val::ValI(if max_i < next_i - 1 { max_i } else { next_i - 1 })
-                        },
-                        (Val::ValF(max_f), Val::ValF(next_f)) => {
-                            // For floats, we can use a very small epsilon
-                            let epsilon = f64::EPSILON;
-                            Val::ValF(if max_f < next_f - epsilon { max_f } else { next_f - epsilon })
-                        },
-                        _ => var_max, // Mixed types - keep current max
-                    }
-                };
-                
-                let _max = self.result.try_set_max(new_result_max, ctx)?;
-            }
-        }
+        // Note: no further tightening of `result` is possible from bounds alone.  In particular
+        // `result < min{var.min | var.min > result.min}` does not follow when a single variable
+        // can reach `result.min`: that variable may itself take a larger value (v in 1..10,
+        // w = 5, result = min(v, w) has solutions with result = 5).  `result <= min(var.max)`
+        // is already enforced by step 2.
 
         Some(())
     }
